@@ -88,6 +88,7 @@ def run(prog, chk):
     from props import C17
     C17.scope_var_limit(prog, chk)  # unbounded growth of scope variables is memory exhaustion (abort)
     C17.limits_wiring(prog, chk)  # the limits the termination argument rests on are the ones the front-ends configure
+    C17.limit_errors_keep_their_variant(prog, chk)  # a limit error that is re-wrapped on its way up is retried: the limit-exhausting work repeats at every nesting level
 
 
 def utf8_boundary(prog, chk):
